@@ -113,7 +113,7 @@ def judge_unit(spec, iid, inst, env, tree, p, oracle_obj, max_len, pad_depth=2):
 
 
 def shape_sig(td):
-    return tuple((k, tuple(v.shape[1:]), str(v.dtype)) for k, v in sorted(td.items()))
+    return E.group_sig(td)
 
 
 def group_max_depths(spec, insts):
